@@ -210,7 +210,11 @@ func c05writers(p *Prog, r *Report) {
 		n := 0
 		for _, w := range p.writersOf(f) {
 			n++
-			name := w.Fn.Name()
+			wf := w.Fn
+			for wf.Parent() != nil { // a closure (e.g. a deferred append) belongs to the function that creates it
+				wf = wf.Parent()
+			}
+			name := wf.Name()
 			switch {
 			case w.Fresh && name == "newCore":
 			case name == app:
@@ -220,7 +224,17 @@ func c05writers(p *Prog, r *Report) {
 				if c != nil {
 					if bi, isB := c.Call.Value.(*ssa.Builtin); isB && bi.Name() == "append" && len(c.Call.Args) == 2 {
 						fv, _ := fieldOf(c.Call.Args[0])
-						ok = fv == f && dependsOn(c.Call.Args[1], func(x ssa.Value) bool { _, isP := x.(*ssa.Parameter); return isP })
+						ok = fv == f && dependsOn(c.Call.Args[1], func(x ssa.Value) bool {
+							if _, isP := x.(*ssa.Parameter); isP {
+								return true
+							}
+							if fvr, isFV := x.(*ssa.FreeVar); isFV {
+								if bnd := freeVarBinding(fvr); bnd != nil {
+									return dependsOn(bnd, func(y ssa.Value) bool { _, isP := y.(*ssa.Parameter); return isP }) || func() bool { al, isAl := bnd.(*ssa.Alloc); return isAl && al.Comment != "" }()
+								}
+							}
+							return false
+						})
 					}
 				}
 				r.Check(ok, rule, app+":append(pool, arg)", p.ipos(w.Instr), fnName(w.Fn), "appends its argument to the pool", app+" does not append its argument to "+pool)
